@@ -298,6 +298,16 @@ def run(pid, cfg, tier, seed, workdir, already_broken):
         findings.append({"message": "C20 fails on the implementation: serializing a container is not load().serialize(): " + rtxt.strip()[-400:], "cls": None,
                          "replay": {"case": "cd /verif/harness/seqx && cargo build --offline && target/debug/seqx reentrant", "impl_result": rtxt.splitlines()[-10:]}})
 
+    # "for every strategy that can be default-constructed": the lock-based strategy takes its reference under the lock
+    try:
+        pr = subprocess.run([sx.exe(), "rwrace"], stdout=subprocess.PIPE, stderr=subprocess.STDOUT, timeout=120)
+        wtxt, wrc = pr.stdout.decode(errors="replace"), pr.returncode
+    except (subprocess.TimeoutExpired, OSError) as ex:
+        wtxt, wrc = repr(ex), -9
+    if wrc != 0 or "RWRACE-OK" not in wtxt:
+        findings.append({"message": "C20 fails on the implementation for the RwLock strategy (a container serializes through load()): " + wtxt.strip()[-400:], "cls": None,
+                         "replay": {"case": "cd /verif/harness/seqx && cargo build --offline && target/debug/seqx rwrace", "impl_result": wtxt.splitlines()[-10:]}})
+
     rc, results, err = _run_cases(cases + de_cases, workdir, "serde")
     if len(results) != len(cases) + len(de_cases):
         broken.append("harness seqx serde failed (exit %s, %d of %d result lines): %s" % (rc, len(results), len(cases) + len(de_cases), err[-300:]))
